@@ -39,6 +39,16 @@ CLAIMS = {
    note="Restricted to rows in a room and non-system entities; model validation and the inline edge-insertion check are outside the kernel; the local "
         "deletion check date is tied to the tombstone's deletion date (the property's same-date clause). Same trusted base as C01.",
    design='DESIGN.md §3 C12'),
+ 'C09': dict(
+   level='model_checking',
+   text="Marking kernel: for every kind of write (InsertEntity / MutationQuery / NodeToInsert / DeletionQuery / RoomMutationWriteQuery::update_daily_logs and the "
+        "marking statements of NodeDeletionEntry / EdgeDeletionEntry::delete_all) the MIR is executed on symbolic rows (rooms, entities, 64-bit dates, old versions) "
+        "into a real DailyMutations value, and z3 shows that every (room, entity, day) cell whose stored content the write changes is among the marked cells; "
+        "the UTC-day function is uninterpreted during exploration and replaced by its exact bit-vector definition before a counterexample is accepted; "
+        "counterexamples and ~2% of explored paths are replayed on the real code (delete_all against an in-memory SQLite).",
+   note="Kernel only: recomputation and the history hash chain are SQL (DailyLogsUpdate::compute) and outside the claim; which rows a cell contains is read from that SQL text. "
+        "Dates are assumed inside chrono's range (panics outside are C14). rusqlite calls are may-fail no-ops.",
+   design='DESIGN.md §3 C09'),
 }
 
 NA = {
